@@ -91,16 +91,19 @@ TEXT = {
  },
  "C17": {
   "level": "Theorems C17_publish, C17_filter, C17_subscribe (WellFormed reports an error iff the documented condition holds, for every packet value) and "
-           "C17_string (the ', malformed!' suffix is present iff WellFormed reports an error).",
+           "C17_string (the ', malformed!' suffix is present iff WellFormed reports an error). C17_wellformed_is_the_source: the three WellFormed methods are regenerated from "
+           "the source as statement lists (gen/GenWf.v) equal to the model's, and their interpretation is wf_publish/wf_subscribe/wf_filter, the functions the theorems are about; "
+           "C17_string_is_the_source: the String methods of fourteen packet types (SUBSCRIBE among them) likewise; PUBLISH's String is hand-modelled (fingerprint + text correspondence).",
   "note": NOTE,
-  "technique": "Coq proof (iff characterisations) + correspondence of WellFormed/String + full-product oracle",
+  "technique": "Coq proof (iff characterisations over the WellFormed statement lists regenerated from the source) + correspondence of WellFormed/String + full-product oracle",
  },
  "C18": {
   "level": "Theorems C18_dump, C18_string, C18_size: for any two CONNECT packets equal except for the bytes of equally long user name and password, Dump and String "
            "produce identical token lists (literal text and fmt arguments) and every packet type's frame size depends on credentials only through their lengths. "
            "C18_dump_is_the_source: the dump method of every packet type and every one-line accessor are regenerated from the source as item lists and accessor terms "
            "(gen/GenDump.v, gen/GenAcc.v), equal to the model's, and their interpretation is the dump_toks the theorem is about. "
-           "fmt's rendering of a token is trusted to be a function of (verb, value); String() is hand-modelled (fingerprint + text correspondence).",
+           "C18_string_is_the_source: CONNECT's String likewise (format string and arguments regenerated, gen/GenString.v). "
+           "fmt's rendering of a token is trusted to be a function of (verb, value).",
   "note": NOTE,
   "technique": "Coq non-interference proof over the render/encoder IR (dump and accessors regenerated from the source) + String/Dump text correspondence + credential-pair oracle",
  },
